@@ -214,7 +214,7 @@ def _shard_inner(prop_id, tier, seed, shard, nshards):
         for case in exh(tier, shard, nshards):
             execute(case, "exh_evaluations")
 
-    n = mod.budget(tier)
+    n = int(mod.budget(tier) * float(os.environ.get("VERIF_BUDGET_SCALE", "1")))
     per = (n + nshards - 1) // nshards if n else 0
     if per:
         strat = mod.strategy(tier)
